@@ -124,6 +124,13 @@ CLAIMED = {
         note="Callees of the commands (date conversion, password, client) are abstract recorders in the proofs. Lists longer than 3 by uniformity of the comprehensions (stated). --all is bounded only: sampled account-information responses and 184 configured patterns (729 thorough). One defect repaired (crash when no account of a kind is ACTIVE); known finding KF-C19-all-configured-inactive.",
         technique="map/concat postconditions on the real command functions with abstract callees (pyvc + z3); bounded runs of the discovery path",
         engine="pyvc"),
+    "C18": dict(
+        category="proof",
+        text="merge_config / merge_from_ofxhome are proved, for every option of DEFAULTS independently and for all presence patterns and values in each source, to return the value of the highest-ranking source that sets it: command line, then the named server's section, then OFX Home (url, org, fid, brokerid - when an OFX Home id is in effect and the lookup finds it), then the built-in default. Table facts: the password is not a configurable option. Persistence (--write then a second run), nothing on a dry run, one default CLIENTUID: bounded run on the real argparser/configparser with a scratch configuration directory.",
+        design_ref="DESIGN.md 9 (C18)",
+        note="ChainMap is modelled (first present wins); extractns/read_config/ofxhome.lookup are abstract mappings. User file over FI database is configparser's read order: bounded only. Persistence is bounded only (100 sampled option sets, 300 thorough; values incl. '%', '&', '=' and lists of 1-3). Two defects repaired (stale value kept when the new value equals the default; '%' not escaped).",
+        technique="precedence postcondition per option over abstract mappings (pyvc + z3); bounded write/read runs on real files",
+        engine="pyvc"),
 }
 
 
